@@ -88,7 +88,7 @@ pub fn plans_for(prop: &str, thorough: bool) -> Vec<Plan> {
                 "C01" => O_PARSE,
                 "C02" => O_NF,
                 "C06" => O_IDEM,
-                _ => O_TOTAL | O_IDEM,
+                _ => O_TOTAL,
             };
             let mut base = stmt.clone();
             base.extend(stmt_long.clone());
